@@ -5,7 +5,7 @@
 From Coq Require Import ZArith List.
 From Emmet Require Import lib.Base model.MarkupConvert model.OutStream model.FormatHtml proofs.HtmlEvents
      proofs.FormatSteps proofs.FormatProofs proofs.FormatChunks proofs.FormatTabstops proofs.FormatCosmetic proofs.FormatDepth proofs.FormatSelfClose
-     proofs.FormatLines proofs.FormatDepthFull proofs.FormatSelfCloseFull.
+     proofs.FormatLines proofs.FormatDepthFull proofs.FormatSelfCloseFull proofs.FormatComments.
 
 (* SPEC.
    fchunks st      the callback invocations of a run, positions erased: CT text | CF index placeholder
@@ -51,6 +51,35 @@ Theorem comments_additive_tabstops_partial c children :
   Adds (content (html_format (with_comment true c) children)) (content (html_format (with_comment false c) children)).
 Proof. exact (fun Hf => comments_additive_lemma c Hf children). Qed.
 Print Assumptions comments_additive_tabstops_partial.
+
+(* C12_comments_additive (FULL, proofs/FormatComments.v): for ALL trees and ALL option records (any templates, triggers,
+   formatting options; ws_fmt: the indent / newline strings are blanks).
+     texts (content st)        the text items of a run in order: every chunk written, blank-only chunks dropped, leading
+                               blanks removed, a field counted with its placeholder
+     comment_texts text n      the text items the template `text` writes for node n: its plain parts and, for every
+                               placeholder [before NAME after] whose attribute NAME n has, before ++ value ++ after
+     open_texts n / close_texts n   the items of the chunks `<name` / `</name>` of n
+     CIns c on off             on is off with comment blocks inserted and nothing else changed, dropped or reordered:
+                               ci_same    the same items appended to both
+                               ci_before  on gets comment_texts comment.before n directly before the opening tag of n
+                               ci_after   on gets comment_texts comment.after n directly after the closing tag of n
+                               both only for nodes n with should_comment (comment.enabled, a trigger attribute present)
+   STATEMENT: the items of the comment-on run are those of the comment-off run with exactly these blocks inserted at
+   exactly these places.  Erasing the blocks gives the comment-off items (comments_erase: CIns on off -> Sub off on).
+   Text level rather than chunk level because the two runs are not chunk-equal outside the comments: a comment with
+   a line break changes the line counter, and push_snippet() left-strips the text after the children only when the
+   line changed (` b` vs `b`); tabstop numbers shift when an id / class value holds a field
+   (comments_additive_tabstops_partial gives identical items, numbers included, without such fields). *)
+Theorem C12_comments_additive c children :
+  ws_fmt (oc_fmt c) ->
+  CIns c (texts (content (html_format (with_comment true c) children)))
+         (texts (content (html_format (with_comment false c) children))).
+Proof. exact (fun Hf => comments_positions_lemma c Hf children). Qed.
+Print Assumptions C12_comments_additive.
+
+Theorem comments_erase c on off : CIns c on off -> Sub off on.
+Proof. exact (CIns_Sub c on off). Qed.
+Print Assumptions comments_erase.
 
 (* selfclose_local.  Full statement: the self-closing style changes only the ` /` or `/` before `>`.
    with_style s c       the option record c with output.selfClosingStyle := s
@@ -387,3 +416,16 @@ Proof.
   split; [vm_compute; reflexivity|]. split; [vm_compute; reflexivity|]. split; [vm_compute; reflexivity|].
   left. split; [intros s0 []|reflexivity].
 Qed.
+
+(* Non-vacuity of C12_comments_additive: <div id="a"> with the default comment.after template "\n<!-- /[#ID][.CLASS] -->":
+   div satisfies should_comment, the template writes the three items `<!-- /`, `#a`, ` -->`... after `</div>`. *)
+Example comments_positions_nonvacuous :
+  let n := ANode (Some [100;105;118]%N) None None
+                 (Some [mkAAttr (Some [105;100]%N) (Some [VStr [97]%N]) VRaw false false false]) [] false in
+  let c := mkOconfig (mkOfmt [9] [] [10])%N [] [] [] true false [] [] 3 false [] s_html [] false [[105;100]]%N []
+                     [10;60;33;45;45;32;47;91;35;73;68;93;91;46;67;76;65;83;83;93;32;45;45;62]%N false None None in
+  should_comment (with_comment true c) n = true /\
+  length (comment_texts (oc_comment_after c) n) = 4 /\
+  texts (content (html_format (with_comment true c) [n])) =
+  texts (content (html_format (with_comment false c) [n])) ++ comment_texts (oc_comment_after c) n.
+Proof. cbv zeta. split; [reflexivity|]. split; vm_compute; reflexivity. Qed.
